@@ -17,6 +17,9 @@ import (
 //go:embed spec/commands.spec
 var cmdSpecText string
 
+//go:embed spec/responses.spec
+var respSpecText string
+
 //go:embed spec/objects.spec
 var objSpecText string
 
@@ -110,7 +113,7 @@ func (m *coroModel) matchTemplate(l *cmdLit, t *cmdTemplate) []string {
 		}
 		matched := false
 		for _, a := range t.Fields[f] {
-			if a == "*" || a == got {
+			if a == "*" && (ok || !starNeedsPresence) || a == got || (strings.HasPrefix(a, "~") && ok && strings.Contains(got, a[1:])) {
 				matched = true
 			}
 		}
@@ -153,6 +156,24 @@ func ruleCmdProvenance(typeNames ...string) ruleFn { return ruleTemplates(false,
 // ruleObjProvenance checks the response/message objects of the given types ("T" or "T.patch").
 func ruleObjProvenance(typeNames ...string) ruleFn { return ruleTemplates(true, typeNames...) }
 
+// ruleRespProvenance: the response literals of the given t_api response types against
+// spec/responses.spec.
+// in responses.spec `*` means "present, any value" (elsewhere it also admits an omitted field)
+var starNeedsPresence bool
+
+func ruleRespProvenance(typeNames ...string) ruleFn {
+	return func(c *Ctx) {
+		c.respSpec, starNeedsPresence = true, true
+		defer func() { c.respSpec, starNeedsPresence = false, false }()
+		ruleTemplates(true, typeNames...)(c)
+	}
+}
+
+var allRespTypes = []string{"AcquireLockResponse", "ReleaseLockResponse", "HeartbeatLocksResponse", "HeartbeatTasksResponse", "ClaimTaskResponse",
+	"CompleteTaskResponse", "CompletePromiseResponse", "ReadPromiseResponse", "CreatePromiseResponse", "CreatePromiseAndTaskResponse",
+	"CreateCallbackResponse", "CreateSubscriptionResponse", "CreateScheduleResponse", "ReadScheduleResponse", "DeleteScheduleResponse",
+	"SearchPromisesResponse", "SearchSchedulesResponse", "EchoResponse"}
+
 func ruleTemplates(objects bool, typeNames ...string) ruleFn {
 	return func(c *Ctx) {
 		m := c.coroModel()
@@ -163,6 +184,9 @@ func ruleTemplates(objects bool, typeNames ...string) ruleFn {
 		text := cmdSpecText
 		if objects {
 			text = objSpecText
+		}
+		if c.respSpec {
+			text = respSpecText
 		}
 		spec, err := loadTemplates(text)
 		if err != nil {
@@ -191,14 +215,19 @@ func ruleTemplates(objects bool, typeNames ...string) ruleFn {
 				base := strings.TrimSuffix(tn, ".patch")
 				lits = m.patches(objTypes[base], base)
 			default:
-				lits = m.structLits(objTypes[tn], tn)
+				pkgOf := objTypes[tn]
+				if c.respSpec {
+					pkgOf = pkgTApi
+				}
+				lits = m.structLits(pkgOf, tn)
 			}
 			for _, l := range lits {
 				nLits++
 				best, bestDiffs := (*cmdTemplate)(nil), []string(nil)
 				for _, t := range ts {
 					d := m.matchTemplate(l, t)
-					if best == nil || len(d) < len(bestDiffs) {
+					// among equally good templates the one tied to the function's role is the more specific
+					if best == nil || len(d) < len(bestDiffs) || (len(d) == len(bestDiffs) && t.Where != "" && best.Where == "") {
 						best, bestDiffs = t, d
 					}
 				}
